@@ -6,6 +6,12 @@ HARNESSES = [
     dict(name="c06", kind="schedn", srcs=["harness/c06/c06_locks.cpp"]),
     dict(name="c10", kind="sched", srcs=["harness/c10/c10_morph.cpp"]),
     dict(name="dharness", kind="dist", srcs=["harness/dist/dharness.cpp"]),
+    dict(name="c14a", kind="asan", srcs=["harness/c14/c14a_seq.cpp"]),
+    dict(name="c14afz", kind="fuzz", srcs=["harness/c14/c14a_seq.cpp"], defs=["-DVERIF_LIBFUZZER"]),
+    dict(name="c17a", kind="asan", srcs=["harness/c17/c17a_serialize.cpp"]),
+    dict(name="c17afz", kind="fuzz", srcs=["harness/c17/c17a_serialize.cpp"], defs=["-DVERIF_LIBFUZZER"]),
+    dict(name="c14b", kind="asan", srcs=["harness/c14/c14b_assoc.cpp"]),
+    dict(name="c14bfz", kind="fuzz", srcs=["harness/c14/c14b_assoc.cpp"], defs=["-DVERIF_LIBFUZZER"]),
     dict(name="c05", kind="sched", srcs=["harness/c05/c05_barrier.cpp"]),
     dict(name="c16", kind="native", srcs=["harness/c16/c16_pstl.cpp"]),
     dict(name="c16e1", kind="sched", srcs=["harness/c16/c16_pstl.cpp"], defs=["-DC16_E1"]),
@@ -212,6 +218,25 @@ PROPS = {
         assumptions=["size+parts and begin+size representable in the integer type (the code's own overflow threshold)",
                      "node and edge weight not both zero; scale factor vectors not all zero (division by zero otherwise)",
                      "DistGraph thread ranges are covered through determineUnitRangesFromGraph/PrefixSum which they call"],
+    ),
+    "C14": dict(
+        variants={"fuzz": ["galois_shmem"]},
+        units=[dict(type="rc", harness="c14a", quick=50000, thorough=4000000, workers=8),
+               dict(type="rc", harness="c14b", quick=50000, thorough=4000000, workers=8),
+               dict(type="fuzz", harness="c14afz", quick=100000, thorough=20000000, workers=8),
+               dict(type="fuzz", harness="c14bfz", quick=100000, thorough=20000000, workers=8)],
+        engine="rapidcheck (in-process, ASan+UBSan) + libFuzzer",
+        technique="model-based property testing: rapidcheck-generated operation sequences (shrunk element-wise) and coverage-guided libFuzzer campaigns over the same decoder, executed against each Galois container and a std:: reference model after every operation; address-registry element type for exactly-once construction/destruction; ASan+UBSan",
+        rule=("cases = (container family, variant, initial elements, up to 300 operations (opcode,a,b) in the case tail); non-trivial per "
+              "family: size exceeded 3 / a chunk boundary and >=1 removal (maps, heaps, sets, deques, rings, lists), >=2 reallocations and "
+              ">=1 removal (POD array), construct+destroy (lazy), set then reset (optional), empty and non-empty inner ranges plus a "
+              "position operation (two-level iterators), >=2 elements and a destroy/re-construct or tear-down (LargeArray); distinct = hash"),
+        level_text=("After every operation: return value, size/empty/front/back, full forward and backward (step-bounded) traversal equal the "
+                    "std::map/vector/multiset/set/deque model; Tracked registry empty at the end, no unregistered address read, assigned or "
+                    "destroyed. libFuzzer explores the same decoder coverage-guided. Exploration only."),
+        level_note="trusted: the std:: reference models and the Tracked registry; members that do not compile when instantiated (flat_map::upper_bound/equal_range/operator==, LazyArray::at, optional converting ctor) cannot be tested",
+        assumptions=["documented/asserted preconditions respected: no pop/top on empty, MinHeap::remove(x) only when x occurs at most once, PODResizeableArray::insert only at end(), new elements of resize() are indeterminate",
+                     "single-threaded use"],
     ),
     "C15": dict(
         variants={"native": ["galois_shmem"]},
